@@ -4,7 +4,7 @@ MESH_REAL = ["pkg/netceptor (routing, flooding, forwarding, ageing)", "pkg/tickr
              "pkg/framer + netceptor.ExternalBackend/netMessageConn on framed links"]
 MESH_STUB = ["UDP/TCP/websocket sockets (replaced by simnet datagram sessions and simulated byte streams)"]
 
-HOOK_COMMITS = ["fa690f5", "f991570", "03ee341", "6bd5a79", "6fc3993", "2eaca44"]
+HOOK_COMMITS = ["fa690f5", "e00a96b", "03ee341", "6bd5a79", "6fc3993", "2eaca44"]
 
 NOT_APPLICABLE = {
     "C20": "pure function of its inputs (names, key, validity window): no schedule, clock, fault or second party for a simulator to "
